@@ -1,6 +1,7 @@
 """Per-property configuration of ./check: Lean modules, tie obligations, correspondence runs,
 failing-input searches, known-finding matching and replay."""
 import collections
+import sys
 import glob
 import hashlib
 import json
@@ -402,6 +403,27 @@ def run_C18(ctx, proof_ok):
                              **{"product_" + k: int(v) for k, v in dist2.items()}, "encode_cases": n3, "estimate_cases": n4}}
 
 
+def run_C20(ctx, proof_ok):
+    sys.path.insert(0, os.path.join(VERIF, "harness", "search"))
+    import guardc
+
+    E = epg()
+    r = lib.rng(20)
+    n, dis, hits = guardc.compare(r, E, budget(ctx.tier, 1600, 40000))
+    ctx.violations.extend(dis)
+    return {"evaluations": n, "distinct_nontrivial": n,
+            "rule": "inputs generated by class (16 classes: negative duration entries at a random position/magnitude/shape for 7 "
+                    "operator kinds, negative G/C times, zero / numerically zero shifts, >4 components, float shift without grid "
+                    "(grid on the operator, the state matrix or simulate), malformed or asymmetric state matrices, scalar and matrix "
+                    "operator coefficients, incompatible operator/state shapes via T/E/MultiOperator/simulate, kinetic matrices "
+                    "(non-square, column sums, non-conserving, 1-d, negative rate), diffusion tensor/wavenumber shapes, differentiation "
+                    "declarations (6 invalid forms), sequences without probe / with non-operator items, sequence variables, pulse "
+                    "samples above 1, boundary-valid inputs), each with valid neighbours, half of the application-time cases on an "
+                    "operator object already applied once to a valid state: epgpy raise/accept vs the class expectation and vs the "
+                    "Lean guard model run by the driver on the same flattened input",
+            "samples": [], "distribution": {k: int(v) for k, v in sorted(hits.items())}}
+
+
 def merge_results(a, b, rule):
     out = dict(a)
     out["evaluations"] = a["evaluations"] + b["evaluations"]
@@ -779,6 +801,20 @@ PROPS["C18"] = {
                 "estimate_alpha's mod-wrapping and estimate_rf's scipy branch are outside the model (the constant-phase closed form is "
                 "proved); batch parameters, encode_phase's frequency map and the estimate functions themselves are decided by the "
                 "searches on the real code"],
+}
+
+PROPS["C20"] = {
+    "lean_modules": ["EpgVerif.Props.C20"],
+    "tie": [],
+    "audit": "EpgVerif/Audit/C20.lean",
+    "run": run_C20,
+    "replay": replay_generic,
+    "theorems_hint": ["anyNegative_iff", "zeroShift_iff", "badStatesShape_iff", "notBroadcastable_iff", "badKinetic_iff", "badDecl_iff",
+                      "badSequence_iff", "pulseTooLarge_iff"],
+    "partial": ["each guard is a decision function characterised by the class it rejects (for every array content, position and "
+                "shape); arrays enter as flat entry lists + shapes and numeric tests as predicates, so numpy's reductions "
+                "(any/all/allclose/max) and the flattening done by the harness are modelled, not verified; that the real "
+                "constructors call these guards on every path is decided by the class-driven search only"],
 }
 
 NOT_CLAIMED = {}
